@@ -174,4 +174,160 @@ Section Src.
       - destruct rest; [reflexivity|]. cbn [link_free]. unfold dir_of. rewrite (st_child pre a x i Hp Hb), Eg. reflexivity.
     Qed.
   End State.
+
+  (* ---- source paths ---- *)
+  (* "<srcRoot>/ps" where no proper prefix of ps is a symlink (in the initial, hence in every, state) *)
+  Definition SPc (p : bytes) : Prop :=
+    exists ps, p = render (scs ++ ps) /\ Forall nm ps /\ link_free f0 sr (removelast ps) = true.
+  (* ps names inode i: srcRoot itself, or an entry of a directory below srcRoot *)
+  Definition sres (ps : list bytes) (i : N) : Prop :=
+    (ps = [] /\ i = sr) \/ exists ns x d, ps = ns ++ [x] /\ chain f0 sr ns d /\ blookup x (dents f0 d) = Some i.
+  (* a source path that names something that is not a symlink *)
+  Definition SPNc (p : bytes) : Prop :=
+    exists ps i n, p = render (scs ++ ps) /\ Forall nm ps /\ Forall nonul ps /\ sres ps i /\
+                   get f0 i = Some n /\ kind_is_link n = false.
+  Definition Rc (i : N) : Prop := src_reach f0 sr i.
+
+  Lemma sr_dir : is_dir f0 sr = true.
+  Proof. eapply chain_end_dir; eauto. Qed.
+  Lemma sr_chain : chain f0 sr [] sr.
+  Proof. constructor. apply sr_dir. Qed.
+
+  Lemma sres_reach ps i : sres ps i -> Rc i.
+  Proof.
+    intros [[-> ->]|(ns & x & d & -> & Hc & Hb)].
+    - exists [], sr. split; [apply sr_chain|left; reflexivity].
+    - exists ns, d. split; auto. right. eauto.
+  Qed.
+
+  Lemma sres_get f ps i : Inv f0 dr f -> sres ps i -> get f i = get f0 i.
+  Proof.
+    intros I [[-> ->]|(ns & x & d & -> & Hc & Hb)].
+    - apply (st_dir f I [] sr sr_chain).
+    - eapply st_child; eauto.
+  Qed.
+
+  Lemma sres_link_free ps i : sres ps i -> link_free f0 sr (removelast ps) = true.
+  Proof.
+    intros [[-> ->]|(ns & x & d & -> & Hc & Hb)]; [reflexivity|].
+    rewrite removelast_last. eapply chain_link_free; eauto.
+  Qed.
+
+  Lemma sres_dir_chain ps i : sres ps i -> is_dir f0 i = true -> chain f0 sr ps i.
+  Proof.
+    intros [[-> ->]|(ns & x & d & -> & Hc & Hb)] Hd; [apply sr_chain|]. eapply chain_snoc; eauto.
+  Qed.
+
+  Lemma rfuel_split : rfuel = (length scs + (rfuel - length scs))%nat.
+  Proof. lia. Qed.
+
+  (* the no-follow lookup of a source path *)
+  Lemma res_nf f p i : Inv f0 dr f -> SPc p -> resolve_ino c f p false = inl i ->
+    exists ps, p = render (scs ++ ps) /\ Forall nm ps /\ Forall nonul ps /\ sres ps i.
+  Proof.
+    intros I (ps & -> & Hn & Hlf) H. unfold resolve_ino in H.
+    destruct (resolve c f (render (scs ++ ps)) false) as [r|e] eqn:Er; [|discriminate].
+    destruct (l_ino r) as [j|] eqn:Ej; [|discriminate]. injection H as ->.
+    pose proof (resolve_no_nul _ _ _ _ _ Er) as Hnul. apply has_nul_render in Hnul.
+    apply Forall_app in Hnul. destruct Hnul as [_ Hpn].
+    exists ps. split; [reflexivity|]. split; [exact Hn|]. split; [exact Hpn|].
+    destruct ps as [|x ns _] using rev_ind.
+    - left. split; [reflexivity|]. rewrite app_nil_r in Er.
+      destruct (resolve_chain c f0 f scs sr false (st_root_chain f I) Hs1 Hs2 Hsl) as (r' & E' & Hi').
+      rewrite E' in Er. injection Er as <-. congruence.
+    - right. rewrite removelast_last in Hlf.
+      apply Forall_app in Hn. destruct Hn as [Hn Hx]. inversion Hx as [|? ? Hx1 _]; subst.
+      apply Forall_app in Hpn. destruct Hpn as [Hpn Hxn].
+      rewrite resolve_render in Er;
+        [|repeat (apply Forall_app; split; auto)|repeat (apply Forall_app; split; auto)|destruct scs; [destruct ns|]; discriminate].
+      rewrite rfuel_split in Er.
+      rewrite (walk_chain_prefix f scs (c_root c) sr (st_root_chain f I) Hs1 (ns ++ [x])) in Er by (destruct ns; discriminate).
+      rewrite <- (st_link_free f I ns sr [] sr_chain) in Hlf.
+      destruct (lf_walk_parent f _ ns sr x _ _ r i Hlf Hn Hx1 Er Ej) as (d' & Hc & Hb).
+      pose proof (st_chain_rev f I sr ns d' Hc [] sr_chain) as Hc0.
+      exists ns, x, d'. split; [reflexivity|]. split; [exact Hc0|].
+      rewrite <- (get_dents f d' (st_dir f I ns d' Hc0)). exact Hb.
+  Qed.
+
+  (* the following lookup of a source path that does not name a symlink *)
+  Lemma res_fl f p j : Inv f0 dr f -> SPNc p -> resolve_ino c f p true = inl j ->
+    exists ps n, p = render (scs ++ ps) /\ Forall nm ps /\ Forall nonul ps /\ sres ps j /\ get f0 j = Some n.
+  Proof.
+    intros I (ps & i & n & -> & Hn & Hpn & Hs & Hg & Hk) H.
+    exists ps, n. split; [reflexivity|]. split; [exact Hn|]. split; [exact Hpn|].
+    assert (E : j = i); [|subst j; auto].
+    unfold resolve_ino in H.
+    destruct (resolve c f (render (scs ++ ps)) true) as [r|e] eqn:Er; [|discriminate].
+    destruct (l_ino r) as [j'|] eqn:Ej; [|discriminate]. injection H as ->.
+    destruct Hs as [[-> ->]|(ns & x & d & -> & Hc & Hb)].
+    - rewrite app_nil_r in Er.
+      destruct (resolve_chain c f0 f scs sr true (st_root_chain f I) Hs1 Hs2 Hsl) as (r' & E' & Hi').
+      rewrite E' in Er. injection Er as <-. congruence.
+    - apply Forall_app in Hn. destruct Hn as [Hn Hx]. inversion Hx as [|? ? Hx1 _]; subst.
+      apply Forall_app in Hpn. destruct Hpn as [Hpn Hxn].
+      rewrite resolve_render in Er;
+        [|repeat (apply Forall_app; split; auto)|repeat (apply Forall_app; split; auto)|destruct scs; [destruct ns|]; discriminate].
+      assert (Hcf : chain f (c_root c) (scs ++ ns) d).
+      { eapply chain_app; [apply (st_root_chain f I)|]. apply (st_chain f I sr ns d Hc [] sr_chain). }
+      rewrite app_assoc in Er.
+      assert (Hbf : blookup x (dents f d) = Some i) by (rewrite (get_dents f d (st_dir f I ns d Hc)); exact Hb).
+      destruct (walk_chain f (c_root c) (scs ++ ns) d Hcf (proj2 (Forall_app _ _ _) (conj Hs1 Hn)) x Hx1 _ _ _ _ _ Er)
+        as [(_ & _ & Hl)|(_ & i' & Hb' & Hlk)].
+      + rewrite Hl, Hbf in Ej. congruence.
+      + exfalso. rewrite Hbf in Hb'. injection Hb' as <-.
+        unfold FsP.is_link in Hlk. rewrite (st_child f I ns d x i Hc Hb), Hg in Hlk.
+        unfold kind_is_link in Hk. destruct n as [[? ?|?|?|? ?] ?]; simpl in *; discriminate.
+  Qed.
+
+  (* ---- the five facts the walk needs ---- *)
+  Lemma src_HA f p i : Inv f0 dr f -> SPc p -> resolve_ino c f p false = inl i -> Rc i.
+  Proof. intros I Hp H. destruct (res_nf f p i I Hp H) as (ps & _ & _ & _ & Hs). eapply sres_reach; eauto. Qed.
+
+  Lemma src_HB f p i n : Inv f0 dr f -> SPc p -> resolve_ino c f p false = inl i -> get f i = Some n ->
+    kind_is_link n = false -> SPNc p.
+  Proof.
+    intros I Hp H Hg Hk. destruct (res_nf f p i I Hp H) as (ps & -> & Hn & Hpn & Hs).
+    exists ps, i, n. repeat (split; auto). rewrite <- (sres_get f ps i I Hs). exact Hg.
+  Qed.
+
+  Lemma src_HC f p j : Inv f0 dr f -> SPNc p -> resolve_ino c f p true = inl j -> Rc j.
+  Proof. intros I Hp H. destruct (res_fl f p j I Hp H) as (ps & n & _ & _ & _ & Hs & _). eapply sres_reach; eauto. Qed.
+
+  Lemma src_HD f p j pp es n : Inv f0 dr f -> SPNc p -> resolve_ino c f p true = inl j ->
+    dir_of f j = Some (pp, es) -> In n (map fst es) -> SPc (join2 p n).
+  Proof.
+    intros I Hp H Hd Hin. destruct (res_fl f p j I Hp H) as (ps & n0 & -> & Hn & Hpn & Hs & Hg).
+    rewrite (get_dir_of f j (sres_get f ps j I Hs)) in Hd.
+    assert (Hdj : is_dir f0 j = true) by (unfold is_dir; rewrite Hd; reflexivity).
+    pose proof (sres_dir_chain ps j Hs Hdj) as Hc.
+    assert (Hnn : nm n).
+    { pose proof (wf_names f0 W j) as Hw. unfold dents in Hw. rewrite Hd in Hw.
+      unfold entry_name_ok in Hw. apply forallb_name_ok in Hw. destruct Hw as [Hw _].
+      rewrite Forall_forall in Hw. apply Hw. exact Hin. }
+    exists (ps ++ [n]). split; [|split].
+    - rewrite join2_names by (try apply Forall_app; auto). rewrite <- app_assoc. reflexivity.
+    - apply Forall_app; split; auto.
+    - rewrite removelast_last. eapply chain_link_free; eauto.
+  Qed.
+
+  Lemma src_HN p : SPNc p -> SPc p.
+  Proof.
+    intros (ps & i & n & -> & Hn & Hpn & Hs & _). exists ps. split; [reflexivity|]. split; [exact Hn|].
+    eapply sres_link_free; eauto.
+  Qed.
+
+  (* the source argument, resolved by rootPath *)
+  Lemma src_HE f src follow sf : Inv f0 dr f -> copy_root_path c f (render scs) src follow = inl sf -> SPc sf.
+  Proof.
+    intros I H.
+    assert (Hnm : forallb name_ok scs = true) by (apply forallb_name_ok; split; auto).
+    pose proof (chain_plain_dir f scs (c_root c) sr (st_root_chain f I)) as Hpd.
+    destruct (RootPathP.copy_rootpath_result_link_free_proof c f scs sr src follow sf Hnm Hpd H) as (cs & -> & Hlex & _ & Hlf).
+    exists cs. split; [reflexivity|]. split; [apply forallb_lex_name_ok; exact Hlex|].
+    rewrite <- (st_link_free f I (removelast cs) sr [] sr_chain).
+    destruct follow; [apply link_free_removelast_gen|]; exact Hlf.
+  Qed.
+
+  Lemma src_root_SP : SPc (render scs).
+  Proof. exists []. rewrite app_nil_r. split; [reflexivity|]. split; [constructor|reflexivity]. Qed.
 End Src.
